@@ -76,12 +76,25 @@ theorem dleq_verify_sites : Facts.dleq_verify = [
     ⟨.scalar_is_zero, 1, true, none⟩
   ] := by decide
 
-def all : List CallFact := Facts.ecdsa_adaptor_sig_deserialize ++ Facts.ecdsa_adaptor_verify ++ Facts.ecdsa_adaptor_recover ++ Facts.ecdsa_adaptor_encrypt ++ Facts.ecdsa_adaptor_decrypt ++ Facts.dleq_verify
+/-- `secp256k1_dleq_challenge`: its fallible-primitive call sites are exactly these, each with its result / overflow flag
+    consumed as listed. -/
+theorem dleq_challenge_sites : Facts.dleq_challenge = [
+    ⟨.scalar_set_b32, 1, false, none⟩
+  ] := by decide
+
+/-- `secp256k1_dleq_nonce`: its fallible-primitive call sites are exactly these, each with its result / overflow flag
+    consumed as listed. -/
+theorem dleq_nonce_sites : Facts.dleq_nonce = [
+    ⟨.scalar_set_b32, 1, false, none⟩,
+    ⟨.scalar_is_zero, 1, true, none⟩
+  ] := by decide
+
+def all : List CallFact := Facts.ecdsa_adaptor_sig_deserialize ++ Facts.ecdsa_adaptor_verify ++ Facts.ecdsa_adaptor_recover ++ Facts.ecdsa_adaptor_encrypt ++ Facts.ecdsa_adaptor_decrypt ++ Facts.dleq_verify ++ Facts.dleq_challenge ++ Facts.dleq_nonce
 
 /-- No overflow flag written by a scalar decoding in these functions is ignored (overwritten or never read). -/
 theorem no_flag_dropped : ∀ f ∈ all, f.flag ≠ some false := by decide
 
 /-- non-vacuity: the regenerated fact lists are not empty -/
-example : all.length = 35 := by decide
+example : all.length = 38 := by decide
 
 end SecpZkp.Props.C14_guards
